@@ -1,5 +1,5 @@
-(* C10 — flatten is stable: a second flatten leaves every non-empty section (offset, sizes) and code_size unchanged; only
-   an EMPTY section's offset may follow the end of its extended predecessor, and from then on flatten is the identity. *)
+(* C10 — flatten_mid is stable: a second flatten_mid leaves every non-empty section (offset, sizes) and code_size unchanged; only
+   an EMPTY section's offset may follow the end of its extended predecessor, and from then on flatten_mid is the identity. *)
 From Coq Require Import ZArith List Bool Lia.
 From Verif Require Import Sections.SectionModel Sections.SectionProofs Sections.ShrinkProofs.
 Import ListNotations.
@@ -131,8 +131,8 @@ Proof.
   rewrite <- (Hvs Hne Htn). rewrite set_vsize_same. reflexivity.
 Qed.
 
-Lemma flatten_stable h h' : wf_holder h -> flatten h = (EOk, h') ->
-  exists h'', flatten h' = (EOk, h'') /\ Forall2 same_ne h' h'' /\ code_size h'' = code_size h' /\ flatten h'' = (EOk, h'').
+Lemma flatten_stable h h' : wf_holder h -> flatten_mid h = (EOk, h') ->
+  exists h'', flatten_mid h' = (EOk, h'') /\ Forall2 same_ne h' h'' /\ code_size h'' = code_size h' /\ flatten_mid h'' = (EOk, h'').
 Proof.
   intros Hwf E. destruct (flatten_flattened h h' Hwf E) as [Hp Eh Hwf' Hl Hlne _ _ _]. pose proof W64_pos.
   destruct (extend_tight (assign 0 h) 0 (assign_wf h 0 Hwf) ltac:(lia) Hl) as [Ht _].
@@ -143,9 +143,9 @@ Proof.
   pose proof (assign_laid h' 0 Hwf' ltac:(lia) Hp') as Hl2. fold l2 in Hl2.
   pose proof (same_ne_wf _ _ Hsn Hwf') as Hw2.
   pose proof (extend_fix l2 0 Hw2 ltac:(lia) Hl2 (same_ne_tight _ _ Hsn Ht) (same_ne_vfull _ _ Hsn Hv)) as Hfix.
-  assert (E2 : flatten h' = (EOk, l2)).
-  { unfold flatten. rewrite Hp'. fold l2. rewrite Hfix. reflexivity. }
+  assert (E2 : flatten_mid h' = (EOk, l2)).
+  { unfold flatten_mid. rewrite Hp'. fold l2. rewrite Hfix. reflexivity. }
   exists l2. split; [assumption|]. split; [assumption|]. split; [apply (code_size_stable h' l2 Hwf' E2)|].
-  unfold flatten. destruct (laid_laid_ne 0 l2 Hl2) as [Hlne2 _]. rewrite (pass1_laid_ne l2 0 Hlne2).
+  unfold flatten_mid. destruct (laid_laid_ne 0 l2 Hl2) as [Hlne2 _]. rewrite (pass1_laid_ne l2 0 Hlne2).
   rewrite (assign_laid_id l2 0 Hl2), Hfix. reflexivity.
 Qed.
